@@ -293,6 +293,45 @@ contract("C16", "__setitem__", [MX + "SetMembersMixin.__setitem__"], floor=5, re
 contract("C16", "set_member", [MX + "SetMembersMixin.set_member"], floor=5, replay="replay_tree_ops", shard_bits=3)(_setter(MX + "SetMembersMixin.set_member", True))
 
 
+@contract("C16", "set_member.longer_keys_stay_in_the_tree_building_api", [MX + "SetMembersMixin.set_member"], floor=3, replay="replay_tree_ops")
+def c_set_member_multi(P):
+    """A key of two or more parts (dotted string or tuple) hands the value over to the member named by the first part, through that member's set_member with
+    the remaining parts -- the tree-building operation, which re-targets aliases and merges stubs -- and not through item assignment, which does neither."""
+    H = Heap(P)
+    o = H.obj("o", ["Module", "Class"])
+    key, partf = key_seq(P, "key", minlen=2)
+    value = H.obj("value", ALL)
+    first = H.obj("first_member", ["Module", "Class"])
+    present = z3.Bool("first_part_names_a_member")
+    calls = []
+
+    def getitem(P_, a, k):
+        return first
+    members = SMap(lambda k: z3.And(present, zstr(k) == partf(0)), lambda k: first, tag="members")
+    o.fields["members"] = members
+    P.opaque_hooks[MX + "SetMembersMixin.set_member"] = lambda P_, a, k: calls.append(("set_member", a))
+    P.opaque_hooks[MX + "SetMembersMixin.__setitem__"] = lambda P_, a, k: calls.append(("__setitem__", a))
+    clo = fn_closure(P, MX + "SetMembersMixin.set_member")
+    clo._nohook = True
+    kind, res = outcome(P, lambda: P.call_closure(clo, [o, key, value], {}))
+    if kind == "raise":
+        P.prove("only_KeyError_when_the_first_part_names_no_member", z3.And(z3.Not(present), P.resolve_cls(res) == "KeyError"), exc=P.resolve_cls(res))
+        P.cover("set_member.multi.raise")
+        return
+    P.prove("exactly_one_delegation", len(calls) == 1, calls=str([c[0] for c in calls]))
+    if len(calls) == 1:
+        op, a = calls[0]
+        P.prove("delegates_to_set_member_not_to_item_assignment", op == "set_member")
+        P.prove("to_the_member_named_by_the_first_part", a[0] is first)
+        P.prove("with_the_same_value", a[2] is value)
+        rest = P.to_seq(a[1])
+        P.prove("with_the_remaining_parts", zint(P.seq_len(rest)) == zint(P.seq_len(key)) - 1)
+        j = P.fresh_int("rest_index")
+        if P.branch(z3.And(j.z >= 0, j.z < zint(P.seq_len(rest)))):
+            P.prove("with_the_remaining_parts.in_order", zstr(P.seq_at(rest, j)) == partf(j.z + 1))
+    P.cover("set_member.multi.ok")
+
+
 # --------------------------------------------------------------------------- Alias links
 @contract("C16", "alias.target_setter", [MD + "Alias.target@setter"], floor=4, replay="replay_alias_links")
 def c_target_setter(P):
